@@ -22,7 +22,7 @@ import vlib
 
 META = {
     "category": "proof",
-    "text": "Coq theorems (Snap/Props_C07.v) over an executable model of the scan cursor and of the lifetimes of what it reads (skiplist nodes, versions, SST files, open handles): in every interleaving of completed writes, rollovers, flushes, installs of new versions (compactions, moves, GCs), trash clean-up, cache evictions and cursor calls - forward, backward, seeks, several cursors - no cursor call touches freed skiplist nodes or a missing file, and each cursor keeps behaving as the reference cursor over the contents at scan-open time; the pre-repair lifetime rules (iterator not owning the nodes, cursor not owning its VersionRef) are models too and are refuted. The model is tied to lsmtk by lock-step replay of single-stepped real histories with cursors held across events (observations, errors, sst/ and trash/ contents), with an allocation registry on every skiplist node dereference, and against a Python reference cursor over the map frozen at scan-open.",
+    "text": "Coq theorems (Snap/Props_C07.v) over an executable model of the scan cursor and of the lifetimes of what it reads (skiplist nodes, versions, SST files, open handles): in every interleaving of completed writes, rollovers, flushes, installs of new versions (compactions, moves, GCs), trash clean-up, cache evictions and cursor calls - forward, backward, seeks, several cursors - no cursor call touches freed skiplist nodes or a missing file, and each cursor keeps behaving as the reference cursor over the contents at scan-open time - writes into the very memtable it iterates included (C07_cursor_snapshot_stable: late-tolerant children, merge and pruning cursor); the pre-repair lifetime rules (iterator not owning the nodes, cursor not owning its VersionRef) are models too and are refuted. The model is tied to lsmtk by lock-step replay of single-stepped real histories with cursors held across events (observations, errors, sst/ and trash/ contents), with an allocation registry on every skiplist node dereference and a count of freed nodes compared with the model's memtable lifetimes, against a Python reference cursor over the map frozen at scan-open, and by a concurrent stage (writer threads against scanning threads) for the one assumption the atomic-event model makes about the read timestamp.",
     "note": "Trusted: Coq kernel; extraction (ExtrOcamlBasic) + ocaml/snap driver; harness c07 + cfg(blue_verif) hooks (single-step compaction, flush handshake, dump, skipfree node-lifetime hook); this module. Modelled, not verified here: the combinators themselves (area Cursor, C11), an SstCursor as the table of its entries (C10), the skiplist's internals (C17: the iterator is modelled as successor/predecessor in the sorted node list), events as atomic steps (a write is visible all at once: C06), storage errors other than a missing file, the file manager's open-file limit.",
 }
 
@@ -463,9 +463,10 @@ class Run:
         if not out.startswith("OPENED") or "UAF" in out:
             self.problem("read", what="opening a scan failed or touched freed memory", impl=out, model=m)
             return
-        if m != "O . wf=1 eq=1":
+        if m != "O . wf=1 eq=1 ts=1":
             # wf=0: the hypotheses of C07_cursor_keeps_scan_open_contents (scan_wfb, fuel) fail in this state;
-            # eq=0: the composed specification differs from the contents-based one
+            # eq=0: the composed specification differs from the contents-based one;
+            # ts=0: open_tsb of C07_cursor_snapshot_stable fails (an entry newer than the sequence numbers handed out)
             self.problem("corr", what="model: open differs, or the stability theorem's hypotheses do not hold here", impl=out, model=m)
         self.note("other_cursor")
         self.cursors[cid] = {"ref": RefCursor(self.spec, parse_bound(lo), parse_bound(hi)), "since": set(), "dead": False,
